@@ -164,6 +164,17 @@ def apply(env: Env, op: str) -> Any:
         if op == "append_tick":
             env.n_tick += 1
             return await st.append_tick("r1", {"type": "t", "n": env.n_tick})
+        if op == "append_tick_bad":
+            # a tick whose payload cannot be serialized: the append fails (in both modes) and must leave nothing behind
+            return await st.append_tick("r1", {"type": "t", "bad": {1, 2}})
+        if op == "append_event_bad":
+            class _Unserializable:
+                pass
+
+            env.n_ev += 1
+            ev = EventEnvelopeWithMetadata.from_event(Event(n=env.n_ev))
+            object.__setattr__(ev, "value", {"x": _Unserializable()})
+            return await st.append_event("r1", ev)
         if op == "append_tick_x3":
             for _ in range(3):
                 env.n_tick += 1
@@ -313,6 +324,9 @@ def run(tier: str, seed: int) -> Any:
               "stream_ticks_all", "state_get_state"]
     for a in legacy:
         cases.append(([a], 4 if tier != "quick" else 3, legacy))
+    failing = ["append_tick", "append_tick_bad", "get_ticks", "append_event", "append_event_bad", "query_events", "reopen"]
+    for a in failing:
+        cases.append(([a], 4 if tier != "quick" else 3, failing))
     many = ["upsert_running", "upsert_other", "query_many_a", "query_many_b", "delete_many_b", "query_many_runs", "query_all"]
     for a in many:
         cases.append(([a], 5 if tier != "quick" else 4, many))
